@@ -114,8 +114,7 @@ theorem residuals_pinned : Gen.AsyncPairs.residuals = [
 
 /-- base-class defaults whose async half is `return self.f(…)` (shape kernel-checked in `Gen`) -/
 theorem delegations_pinned : Gen.AsyncPairs.delegations = [
-    "liquid/ast.py:Node.children", "liquid/ast.py:Node.render_to_output",
-    "liquid/expression.py:Expression.evaluate", "liquid/loader.py:BaseLoader.get_source"] := by decide
+    "liquid/ast.py:Node.children", "liquid/ast.py:Node.render_to_output", "liquid/expression.py:Expression.evaluate", "liquid/loader.py:BaseLoader.get_source"] := by decide
 
 /-- no class defines an `*_async` method without its synchronous twin -/
 theorem no_async_only : Gen.AsyncPairs.asyncOnly = [] := by decide
